@@ -138,6 +138,11 @@ fn find_inv_error_locations_levinson_durbin(syn: &[GF]) -> Result<Vec<GF>, Error
 
     // find smallest v such that H_v is nonsingular
     let mut v = syn.iter().take_while(|s| **s == GF(0)).count() + 1;
+    if v > t {
+        // the first t syndromes vanish but a later one does not,
+        // this can not be the result of t or less errors
+        return Err(ErrorDecodingError::TooManyErrors);
+    }
 
     // initialize y = [1/b_v, 0, ..., 0]
     let mut y = Vec::with_capacity(t);
